@@ -6,6 +6,7 @@ import multilib as M
 
 PID = "C12"
 LEVEL = "proof"
+NEED_RELEASE = True
 COQ_TARGETS = ["Props/C12.vo"]
 THEOREMS = ["C12_circle_norm", "C12_sphere_norm", "C12_disc_ball_norm", "C12_circle_angle_doubling", "C12_sphere_z_linear",
             "C12_u_pm1_range", "C12_unit_circle_norm", "C12_unit_sphere_norm", "C12_unit_disc_norm", "C12_unit_ball_norm"]
@@ -62,13 +63,30 @@ def correspond(ctx):
             stats["match" if c == 0 else "mismatch" if c == 1 else "unjudged"] += 1
             if c == 1:
                 mismatches.append({"family": fam, "type": ty, "harness_line": r["line"][:300], "rust": r["out"]})
+    # bulk norm oracle on the real crate: events of probability ~1e-7 per f32 sample (both coordinates tiny) are reached
+    nb = 10_000_000 if tier == "quick" else 100_000_000
+    blines = []
+    for fam in FAMS:
+        for ty, k in (("f32", 10), ("f64", 2)):
+            for j in range(k):
+                blines.append("manyv %s %s - %x %d" % (fam, ty, rng.u64(), nb))
+    bouts = run_harness_guarded_parallel(ctx["binary_release"], blines, batch_timeout=900, line_timeout=600, chunk=3)
+    bulk = 0
+    for line, o in zip(blines, bouts):
+        if not o.startswith("n="):
+            oracle_failures.append({"property": PID, "class": "unit-bulk", "harness_line": line, "what": "bulk run returned " + o}); continue
+        f = dict(x.split("=", 1) for x in o.split(" "))
+        bulk += int(f["n"])
+        if int(f["bad"]) or int(f["nan"]):
+            oracle_failures.append({"property": PID, "class": "unit-norm", "harness_line": line,
+                                    "what": "%s: %s of %s seeded samples violate the norm constraint, %s NaN (first: %s)" % (line.split()[1] + "<" + line.split()[2] + ">", f["bad"], f["n"], f["nan"], f["first"])})
     return {
-        "evaluations": len(jobs), "distinct_nontrivial": len({(j[0], j[1], tuple(j[3][:4])) for j in jobs}),
+        "evaluations": len(jobs) + bulk, "distinct_nontrivial": len({(j[0], j[1], tuple(j[3][:4])) for j in jobs}),
         "rule": "4 samplers x {f32,f64} x word streams (3/4 random, 1/4 with one lattice word at a position < 4): real crate output vs Coq model "
                 "(same words consumed, every component inside its enclosure) and the norm predicate on the real output; distinct by first 4 words",
         "samples": [res[0]["line"][:200], res[0]["out"]],
         "mismatches": mismatches, "oracle_failures": oracle_failures,
-        "extra": {"model_vs_crate": stats, "max_norm_deviation_ulp": maxdev},
+        "extra": {"model_vs_crate": stats, "max_norm_deviation_ulp": maxdev, "bulk_norm_samples": bulk},
     }
 
 
